@@ -290,11 +290,13 @@ func cmdCheck(args []string) int {
 				if _, isKF := matchKF(kfByObl, o.ID); isKF {
 					continue
 				}
-				if o.Status == "unsat" && o.Secs <= 12 {
+				if o.Status == "unsat" && o.Secs <= 12 && !neverClaimed(o.ID) {
 					nc.Claimed = append(nc.Claimed, o.ID)
 				} else {
 					why := claims.Unclaimed[o.ID]
-					if why == "" {
+					if neverClaimed(o.ID) {
+						why = "kept out of the claims (claims/never.txt): discharged, but the solver time is too close to the quick budget to promise it on every run"
+					} else if why == "" || strings.HasPrefix(why, "kept out") {
 						why = "undecided on the pinned tree: " + o.Status
 					}
 					nc.Unclaimed[o.ID] = why
@@ -500,4 +502,20 @@ func (p *Program) encodeCallPreOnly(c *Contract) *UnitResult {
 	}
 	u.Obls = keep
 	return u
+}
+
+// neverClaimed: obligations listed (by substring) in claims/never.txt are kept out of the claims whatever this run
+// measured: their solver time is too close to the quick budget to promise them on every run.
+func neverClaimed(id string) bool {
+	b, err := os.ReadFile(filepath.Join(verifRoot(), "claims", "never.txt"))
+	if err != nil {
+		return false
+	}
+	for _, l := range strings.Split(string(b), "\n") {
+		l = strings.TrimSpace(l)
+		if l != "" && !strings.HasPrefix(l, "#") && strings.Contains(id, l) {
+			return true
+		}
+	}
+	return false
 }
